@@ -17,12 +17,19 @@ import sys
 _UNARY_PRIMS = "abs|acos|acosh|asin|asinh|atan|atanh|ceil|cos|cosh|erf|exp|floor|log|neg|round|sin|sinh|sqrt|tan|tanh"
 
 CAUSES = [
+    # --- pad / pool / conv extension (c08_dom3, c08_e2e_nn) ---
+    (r"aten::conv3d\|bias~off", "aten_conv3d builds the zero bias for bias=None with shape [Cout, 2] (copied from the complex overload) instead of [Cout]: every conv3d call without bias yields a Conv that ORT and onnx.reference reject (when a one-element stride/padding/dilation list is also given the graph already fails shape inference)"),
+    (r"aten::(avg_pool[23]d)\|.*divisor_override~given|e2e:nn:avg_pool2d\|divisor_override~given", "avg_pool2d/3d ignore divisor_override (TODO in the source): the window sum is divided by the window size instead of the given divisor"),
+    (r"aten::(avg|max)_pool[23]d(_with_indices)?\|(kernel_size|stride|dilation)~len=1", "one-element kernel_size/stride/dilation list for a 2-d/3-d pooling op (torch broadcasts it to every spatial axis; only int and one-element *padding* are expanded by _adjust_attributes_of_*_pool): MaxPool/AveragePool attribute with the wrong length, model invalid"),
+    (r"aten::conv[23]d\|(stride|padding|dilation)~len=1", "one-element stride/padding/dilation list for conv2d/conv3d (torch broadcasts it; aten_convolution expands it, aten_conv2d/3d only expand a bare int): Conv attribute with the wrong length, model invalid"),
+    (r"aten::convolution\|.*output_padding~len=1", "aten::convolution(transposed=True) with a one-element output_padding on a 2-d convolution: stride/padding/dilation are expanded to the spatial rank, output_padding is passed through: ConvTranspose attribute with the wrong length, model invalid"),
+    (r"aten::replication_pad1d\|shape=\(2,1\),padding~list:hasneg", "replication_pad with a negative pad that crops the whole axis before the other side replicates (W=1, padding=[-1,1] or [1,-2]): torch clamps the source index and returns the single column, ONNX Pad(mode=edge) has nothing left to replicate and ORT / onnx.reference refuse the node"),
     # --- declared type wider than the emitted ONNX op accepts (prims) ---
     (rf"\|invalid-graph\|prims::({_UNARY_PRIMS})\|dtype~nonfloat", "prims unary declares TTensor but emits a float-only ONNX op; torch.ops.prims accepts int/bool"),
     (r"\|invalid-graph\|prims::(add|sub|mul|div|ge|gt|le|lt|sum|pow)\|.*(dtype=bool|py:bool)", "prims binary/sum on bool: declared TTensor, emitted ONNX op has no bool overload"),
     (r"\|prims::remainder\|.*py", "prims::remainder (aten_remainder) with a python scalar divisor: constant typed INT64/BOOL against a float tensor"),
     (r"\|prims::pow\|", "prims::pow: python/bool exponent or 0-d integer base"),
-    (r"\|prims::(sum|var)\|shape~0d", "reduction over axis 0/-1 of a 0-d tensor (torch accepts) emits ReduceX with axes on rank 0"),
+    (r"\|prims::(sum|var)\|(.*,)?(shape~0d|size@dim=0d)", "reduction over axis 0/-1 of a 0-d tensor (torch accepts) emits ReduceX with axes on rank 0"),
     (r"\|prims::var\|", "prims::var: correction=None / dims=[] not handled"),
     # --- alpha on python scalar ---
     (r"aten::(add|sub|subtract)\.Tensor\|.*other~py", "alpha != 1 with a python-scalar `other` in the Tensor slot: CastLike(alpha, other) types both constants INT64/BOOL -> type-inconsistent Mul/Add/Sub"),
@@ -40,11 +47,12 @@ CAUSES = [
     (r"aten::mean(\.dim)?\|.*dtype~nonfloat", "mean of an integer tensor with dtype=float: computed in integers / result dtype stays integer"),
     (r"aten::log_softmax\.int\|dtype_arg=None", "log_softmax.int(x, dim, None): positional dtype=None reaches Cast(to=None)"),
     # --- empty / 0-d / dim lists in reductions ---
-    (r"aten::(all|any)(\.dims?)?\|.*(numel=0|shape=\(0\))|aten::any(\.dim)?\|size@dim", "any over an empty tensor/axis returns True (ReduceMax/ReduceMin identity) where torch returns False"),
+    (r"aten::(all|any)\.dims\|(.*,)?size@dim=0d", "all/any.dims on a 0-d tensor with dim=[0]/[-1]: Squeeze axis out of range"),
+    (r"aten::(all|any)(\.dims?)?\|.*(numel=0|shape=\(0\))|aten::any(\.dims?)?\|size@dim", "any over an empty tensor/axis returns True (ReduceMax/ReduceMin identity) where torch returns False"),
     (r"aten::(all|any)\.dims\|.*len=0", "all/any.dims with dim=[]: torch reduces nothing (identity), torchlib reduces everything"),
     (r"aten::(all|any)\.dims\|shape~0d", "all/any.dims on a 0-d tensor with dim=[0]/[-1]: Squeeze axis out of range"),
     (r"aten::mean\.dim\|.*dim~off", "mean.dim(x, None): dim=None produces a Reshape of a missing value"),
-    (r"aten::mean\.dim\|shape(~numel=0|=\(0\))", "mean over an empty axis: ORT/reference give 0 where torch gives NaN"),
+    (r"aten::mean\.dim\|(shape(~numel=0|=\(0\))|size@dim=has0)", "mean over an empty axis: ORT/reference give 0 where torch gives NaN"),
     (r"aten::(amax|amin)\|dim~off", "amax/amin with dim omitted (schema default []): torchlib's signature has no default for dim -> export fails"),
     (r"aten::(amax|amin|prod\.dim_int|topk|max\.dim|min\.dim|cumsum|logsumexp|argmax|argmin|sort|glu)\|.*0d", "dim=0/-1 on a 0-d tensor (torch accepts): ONNX op emitted with an axis on rank 0"),
     (r"aten::(argmax|argmin)\|.*dim~off,keepdim~given", "argmax/argmin(dim=None, keepdim=True): result shape (1,) instead of all-ones rank"),
@@ -122,15 +130,27 @@ def _render(first_case):
         if k == "TL":
             return "[" + ", ".join(r(x) for x in v[1]) + "]"
         return str(v)
+    if "m" in first_case and "a" in first_case:
+        return f"x:{first_case['dt']}{tuple(first_case['x'])}, " + ", ".join(f"{k}={v}" for k, v in first_case["a"].items())
     if "g" in first_case and "f" in first_case and "xdt" in first_case:
         return f"g={first_case['g']}(f={first_case['f']}(x:{first_case['xdt']}), y:{first_case['ydt']})"
     return ", ".join(f"{k}={r(v)}" for k, v in first_case.items())
 
 
+def replays_in_log(path):
+    """replay files named by the VIOLATION lines of a saved ./check output"""
+    out = []
+    for line in open(path):
+        m = re.match(r"VIOLATION property=C08 replay=(\S+) key=", line)
+        if m:
+            out.append(m.group(1))
+    return out
+
+
 def propose(dirs):
     out = []
     for d in dirs:
-        for p in sorted(glob.glob(os.path.join(d, "*.json"))):
+        for p in ([d] if d.endswith(".json") else sorted(glob.glob(os.path.join(d, "*.json")))):
             rec = json.load(open(p))
             key = rec["key"]
             det = rec.get("violation", {}).get("detail", {})
@@ -142,7 +162,10 @@ def propose(dirs):
                     break
             op = key.split("|")[2]
             what = str(det.get("what") or "").split(" [reference evaluator")[0].replace("\n", " ")[:160]
-            if op.startswith("e2e:"):
+            if op.startswith("e2e:nn:"):
+                spec = {k: fc[k] for k in ("x", "dt", "a") if k in fc}
+                repro = f"python -m vf.props.c08_repro --e2e-nn {op.split(':')[-1]} '{json.dumps(spec, separators=(',', ':'))}'"
+            elif op.startswith("e2e:"):
                 repro = f"python -m vf.props.c08_repro --e2e {fc.get('f')} {fc.get('g')} {fc.get('xdt')} {fc.get('ydt')}"
             else:
                 repro = f"python -m vf.props.c08_repro '{op}' '{json.dumps(fc, separators=(',', ':'))}'"
@@ -152,6 +175,8 @@ def propose(dirs):
 
 
 if __name__ == "__main__":
+    if len(sys.argv) > 2 and sys.argv[1] == "--from-log":
+        sys.argv[1:] = sorted({p for log in sys.argv[2:] for p in replays_in_log(log)})
     dirs = sys.argv[1:] or [os.path.join(os.path.dirname(os.path.dirname(os.path.dirname(os.path.abspath(__file__)))), "replays", "C08")]
     seen = set()
     for e in propose(dirs):
